@@ -36,6 +36,10 @@ class Ctx:
         self.bdir = os.path.join(BUILD, pid)
         os.makedirs(self.out, exist_ok=True)
         os.makedirs(self.bdir, exist_ok=True)
+        if not replay:
+            for f in os.listdir(self.out):
+                if f.startswith("replay-"):
+                    os.remove(os.path.join(self.out, f))
         self.rng = random.Random("%s/%s/%s" % (pid, tier, seed))
         self.thorough = tier == "thorough"
 
